@@ -8,6 +8,7 @@ from . import Violation, HarnessError
 from . import canon, globalstate
 
 from simprocesd.model import System, EventType, Environment, ResourceManager
+from simprocesd.model.simulation import Event
 from simprocesd.model.factory_floor import (Asset, Part, PartGenerator, Batch, PartHandler,
                                             PartFlowController, DecisionGate, Group, PartBatcher,
                                             PartProcessor, Source, Buffer, Sink, Maintainer)
@@ -307,7 +308,7 @@ class OpAction:
 
 class LineWorld:
     _canon_skip = ('spec', 'facts', 'last_tie_size', 'budget', 'mode', 'ops', 'horizon',
-                   'op_limits', 'positions', '_saved', '_gsaved', 'script')
+                   'op_limits', 'positions', '_saved', '_gsaved', 'script', 'dispatched')
 
     def __init__(self, spec, monitors=(), mode='e1'):
         self.spec = spec
@@ -323,6 +324,9 @@ class LineWorld:
             self.script.append((ent[0], ent[1], len(self.ops) - 1))
         self.positions = tuple(spec.get('positions', ('pre', 'end', 'mid')))
         self.budget = spec.get('K', 0)
+        self.dispatched = None                        # E2 with trace: independent log of dispatched events
+        self.splits_left = spec.get('splits', 0)      # how often the run may still be split (part of the digest)
+        self.between = False                          # True between two consecutive runs
         self.used = [0] * len(self.ops)
         self.facts = []
         self.last_tie_size = 0
@@ -475,7 +479,7 @@ class LineWorld:
         return canon.digest(self)
 
     def done(self):
-        return self.env._terminated
+        return self.env._terminated and not self.between
 
     def sources(self):
         return [d for d in self.dev.values() if isinstance(d, Source)]
@@ -483,8 +487,40 @@ class LineWorld:
     def flow_devices(self):
         return [a for a in self.system._assets if isinstance(a, PartFlowController)]
 
+    def _head_for_ops(self):
+        '''The event relative to which injection positions are computed.  When the scenario allows splitting the
+        run, TERMINATE events are ignored (the real first run carries its own TERMINATE instead of the horizon's).'''
+        evs = self.env._events
+        if not self.spec.get('splits'):
+            return evs[0] if evs else None
+        for e in evs:
+            if e.event_type != EventType.TERMINATE:
+                return e
+        return None
+
+    def _op_labels(self, positions, kind='op'):
+        labels = []
+        first = self.spec.get('first_op')
+        fresh = first is not None and not any(self.used)
+        for i in range(len(self.ops)):
+            if fresh and i != first:
+                continue       # this job covers the executions whose FIRST injected operation is `first`
+            lim = self.op_limits[i]
+            if lim is not None and self.used[i] >= lim:
+                continue
+            for p in positions:
+                labels.append((kind, i, p) if p is not None else (kind, i))
+        return labels
+
     def menu(self):
         env = self.env
+        if self.between:
+            # between two runs: operations are plain calls (no event), then the next run starts
+            labels = [('resume',)]
+            if self.budget > 0:
+                labels += self._op_labels([None], 'xop')
+            self.last_tie_size = 0
+            return labels
         tg = canon.tie_group(env)
         self.last_tie_size = len(tg)
         labels = []
@@ -494,21 +530,18 @@ class LineWorld:
             if k not in seen:
                 seen.add(k)
                 labels.append(('ev', k))
-        if self.budget > 0 and tg:
+        head = self._head_for_ops()
+        if self.budget > 0 and tg and head is not None and (head is tg[0] or not self.spec.get('splits')):
             pos = ['pre']
             if tg[0].time > env.now:
                 pos += ['end', 'mid']
             pos = [p for p in pos if p in self.positions]
-            first = self.spec.get('first_op')
-            fresh = first is not None and not any(self.used)
-            for i in range(len(self.ops)):
-                if fresh and i != first:
-                    continue       # this job covers the executions whose FIRST injected operation is `first`
-                lim = self.op_limits[i]
-                if lim is not None and self.used[i] >= lim:
-                    continue
-                for p in pos:
-                    labels.append(('op', i, p))
+            labels += self._op_labels(pos)
+        if self.splits_left > 0 and tg and tg[0].time > env.now and tg[0].event_type != EventType.TERMINATE:
+            # the run may end here: strictly between two instants, or as the last thing of the current instant
+            labels.append(('split', 'mid'))
+            if env.now > 0 or self.steps > 0:
+                labels.append(('split', 'end'))
         return labels
 
     def apply(self, label):
@@ -521,7 +554,45 @@ class LineWorld:
                 self.started = True
                 for m in self.monitors:
                     m.start(self)
-            if label[0] == 'ev':
+            if label[0] == 'resume':
+                if not self.between:
+                    raise HarnessError('resume while a run is in progress')
+                self.between = False
+                if self.mode == 'e1':
+                    env._terminated = False       # what Environment.run does first (the horizon TERMINATE is queued already)
+                self.facts.append('run_resumed')
+                return
+            if label[0] == 'xop':
+                if not self.between:
+                    raise HarnessError('xop while a run is in progress')
+                i = label[1]
+                ev = Event(env.now, HARNESS_ID, OpAction(self, i), EventType.OTHER_LOW_PRIORITY, 'between runs')
+                ev.detached = True
+                self.budget -= 1
+                self.used[i] += 1
+                self.facts.append('xop:' + self.ops[i][0])
+                self.hub.begin(ev.asset_id)
+                for m in self.monitors:
+                    m.before(self, label, ev)
+                self.steps += 1
+                ev.execute()
+                for m in self.monitors:
+                    m.after(self, label, ev)
+                return
+            if label[0] == 'split':
+                head = self._head_for_ops()
+                if head is None or not head.time > env.now:
+                    raise HarnessError('split not enabled')
+                t = (env.now + head.time) / 2 if label[1] == 'mid' else env.now
+                if self.mode == 'e1':
+                    env.schedule_event(t, -1, env._terminate, EventType.TERMINATE)
+                ev = env._events[0]
+                if ev.time != t or ev.event_type != EventType.TERMINATE:
+                    raise HarnessError(f'split: head of the queue is {ev} but the run should end at {t}')
+                self.splits_left -= 1
+                self.between = True
+                self.facts.append('split:' + label[1])
+            elif label[0] == 'ev':
                 ev = None
                 tg = canon.tie_group(env)
                 for e in tg:
@@ -533,9 +604,9 @@ class LineWorld:
                                        f'{[repr(canon.event_key(e)) for e in tg]}')
                 if len(tg) > 1:
                     self.facts.append('tie_choice')
-            else:
+            elif label[0] == 'op':
                 _, i, pos = label
-                head = env._events[0]
+                head = self._head_for_ops()
                 if pos == 'pre':
                     t, prio = head.time, head.event_type
                 elif pos == 'end':
@@ -552,6 +623,8 @@ class LineWorld:
                 self.budget -= 1
                 self.used[i] += 1
                 self.facts.append('op:' + self.ops[i][0])
+            else:
+                raise HarnessError(f'unknown label {label}')
             # move the chosen event to the front of its tie group and run the REAL step
             env._events.remove(ev)
             ev.random_weight = -1.0
@@ -560,6 +633,11 @@ class LineWorld:
             for m in self.monitors:
                 m.before(self, label, ev)
             self.steps += 1
+            if self.dispatched is not None:
+                f = ev.action
+                self.dispatched.append((ev.time, ev.asset_id,
+                                        getattr(f, '__name__', None) or getattr(getattr(f, 'func', None), '__name__', '?'),
+                                        float(ev.event_type)))
             Environment.step(env)
             for m in self.monitors:
                 m.after(self, label, ev)
@@ -652,16 +730,52 @@ class _PrefixDone(Exception):
     pass
 
 
-def run_e2(spec, monitor_factory, path, prefix_ok=False):
-    '''Replay a choice list through the REAL System.simulate().  Returns the final
-    digest (hex).  Violations propagate as mc.Violation; a path that does not fit
-    the run is a HarnessError.'''
+def _check_trace(w, home, run_no):
+    '''C15, trace clause: the exported file lists exactly the events dispatched so far (all traced runs), in order.'''
+    import json
+    import os
+    f = os.path.join(home, 'Downloads', f'{w.env.name}_trace.json')
+    if not os.path.exists(f):
+        raise Violation('trace', f'run {run_no}: trace enabled but no file was exported')
+    with open(f) as fp:
+        tr = json.load(fp)
+    keys = sorted(tr, key=int)
+    if [int(k) for k in keys] != list(range(len(keys))):
+        raise Violation('trace', f'run {run_no}: trace indices are not 0..n-1: {keys[:10]}...')
+    got = [(tr[k]['time'], tr[k]['asset_id'], tr[k]['action'], float(tr[k]['event_type'])) for k in keys]
+    want = [tuple(x) for x in w.dispatched]
+    if got != want:
+        i = next((j for j, (a, b) in enumerate(zip(got, want)) if a != b), min(len(got), len(want)))
+        raise Violation('trace', f'run {run_no}: exported trace has {len(got)} entries, {len(want)} events were dispatched; '
+                                 f'first difference at index {i}: trace {got[i] if i < len(got) else None} vs '
+                                 f'dispatched {want[i] if i < len(want) else None}')
+
+
+def run_e2(spec, monitor_factory, path, prefix_ok=False, trace=False):
+    '''Replay a choice list through the REAL System.simulate() -- several consecutive calls when the path splits
+    the run.  Returns the final digest (hex).  Violations propagate as mc.Violation; a path that does not fit the
+    run is a HarnessError.'''
     from .explorer import _Quiet
+    path = [tuple(x) for x in path]
+    seg_ends = []
+    if any(l[0] == 'split' for l in path):
+        # dry linear pass (no forking) only to learn WHEN each run ends; the verdict comes from the real pass
+        w0 = LineWorld(spec, monitor_factory(), mode='e1')
+        with _Quiet():
+            for l in path:
+                try:
+                    w0.apply(l)
+                except HarnessError:
+                    raise
+                except Exception:
+                    break
+                if l[0] == 'split':
+                    seg_ends.append(w0.env.now)
     w = LineWorld(spec, monitor_factory(), mode='e2')
     it = iter(path)
     state = {'n': 0}
 
-    def shim():
+    def take():
         try:
             label = next(it)
         except StopIteration:
@@ -669,21 +783,71 @@ def run_e2(spec, monitor_factory, path, prefix_ok=False):
                 raise _PrefixDone()
             raise HarnessError('replay: run wants more steps than the recorded path has')
         state['n'] += 1
+        return label
+
+    def do(label):
         try:
             w.apply(label)
         except BaseException as e:
-            e.mc_steps = state['n']
+            if not hasattr(e, 'mc_steps'):
+                e.mc_steps = state['n']
             raise
+
+    def shim():
+        label = take()
+        if label[0] in ('xop', 'resume'):
+            raise HarnessError(f'replay: {label} recorded while the real run is still in progress')
+        do(label)
 
     saved = (Asset._id_counter, System._instance)
     Asset._id_counter = w.id_counter
     System._instance = w.system
     gs = globalstate.enter(w.gvals)
     w.env.step = shim
+    home = old_home = None
+    if trace:
+        import os
+        import tempfile
+        home = tempfile.mkdtemp(prefix='mc_home_')
+        os.makedirs(os.path.join(home, 'Downloads'))
+        old_home = os.environ.get('HOME')
+        os.environ['HOME'] = home
+        w.dispatched = []
     try:
         with _Quiet():
             try:
-                w.system.simulate(w.horizon, print_summary=False)
+                t_prev = 0
+                ends = list(seg_ends) + [w.horizon]
+                for k, t_end in enumerate(ends):
+                    try:
+                        w.system.simulate(t_end - t_prev, trace=trace, print_summary=False)
+                    finally:
+                        # the run loop exports in a finally clause, so the file must be right even for a prefix
+                        if trace and w.dispatched is not None and not prefix_ok:
+                            pass
+                    if trace:
+                        state['n'] = max(state['n'], 1)
+                        try:
+                            _check_trace(w, home, k)
+                        except Violation as v:
+                            v.mc_steps = state['n']
+                            raise
+                    if w.env.now != t_end:
+                        raise HarnessError(f'replay: run {k} ended at {w.env.now}, expected {t_end}')
+                    t_prev = t_end
+                    if k == len(ends) - 1:
+                        break
+                    if not w.between:
+                        raise HarnessError('replay: a run ended although the path did not split it here')
+                    while True:
+                        label = take()
+                        if label[0] == 'xop':
+                            do(label)
+                        elif label[0] == 'resume':
+                            do(label)
+                            break
+                        else:
+                            raise HarnessError(f'replay: {label} recorded between two runs')
             except _PrefixDone:
                 return None
             rest = list(it)
@@ -695,4 +859,12 @@ def run_e2(spec, monitor_factory, path, prefix_ok=False):
         w.id_counter = Asset._id_counter
         Asset._id_counter, System._instance = saved
         globalstate.leave(w.gvals, gs)
+        if trace:
+            import os
+            import shutil
+            if old_home is None:
+                os.environ.pop('HOME', None)
+            else:
+                os.environ['HOME'] = old_home
+            shutil.rmtree(home, ignore_errors=True)
     return w.digest().hex()
